@@ -561,7 +561,7 @@ Proof.
     cbn [body kseg]. rewrite !app_assoc_s. change ("(" ++ ?x) with (String "("%char x).
     assert (Hrun : forall S' A' o sa', (sa' = true -> first_not_in ["&"%char] (String e0 er) = true) ->
               R (Cst S' A' o 0 "" sa' false) (String e0 er ++ ")" ++ rest)
-              = R (Top (S' ++ [(Some TCollector, ACollector o (String e0 er))])%list (Some TCollector) A' "" false true) rest).
+              = R (Top (S' ++ [(Some TCollector, ACollector o (String e0 er))])%list None A' "" false true) rest).
     { intros S' A' o sa' Hsa. rewrite (run_app strip sepc (String e0 er)).
       pose proof (coll_expr strip sepc S' A' o (String e0 er) 0 0 "" sa' H2 H3 Hsa) as Hx.
       cbn [Nat.add] in Hx. rewrite Hx. cbn [bind append aft].
@@ -572,22 +572,22 @@ Proof.
       eexists. split.
       * change (cop_text CNone ++ ?x) with x. cbn [run]. rewrite coll_open_top, Hp. cbn [bind].
         apply Hrun. intros _. exact H4.
-      * exists ((S ++ p) ++ [(Some TCollector, ACollector CNone (String e0 er))])%list, (Some TCollector), A, "", false, true, [].
+      * exists ((S ++ p) ++ [(Some TCollector, ACollector CNone (String e0 er))])%list, None, A, "", false, true, [].
         repeat split; try discriminate. apply app_nil_r.
     + destruct (Hc1 Hop) as (-> & -> & ->). cbn in Hp. inversion Hp; subst p. rewrite app_nil_r.
       eexists. split.
       * rewrite coll_op_open. apply Hrun. discriminate.
-      * exists (S ++ [(Some TCollector, ACollector CAdd (String e0 er))])%list, (Some TCollector), A, "", false, true, [].
+      * exists (S ++ [(Some TCollector, ACollector CAdd (String e0 er))])%list, None, A, "", false, true, [].
         repeat split; try discriminate. apply app_nil_r.
     + destruct (Hc1 Hop) as (-> & -> & ->). cbn in Hp. inversion Hp; subst p. rewrite app_nil_r.
       eexists. split.
       * rewrite coll_op_open. apply Hrun. discriminate.
-      * exists (S ++ [(Some TCollector, ACollector CSub (String e0 er))])%list, (Some TCollector), A, "", false, true, [].
+      * exists (S ++ [(Some TCollector, ACollector CSub (String e0 er))])%list, None, A, "", false, true, [].
         repeat split; try discriminate. apply app_nil_r.
     + destruct (Hc1 Hop) as (-> & -> & ->). cbn in Hp. inversion Hp; subst p. rewrite app_nil_r.
       eexists. split.
       * rewrite coll_op_open. apply Hrun. discriminate.
-      * exists (S ++ [(Some TCollector, ACollector CAnd (String e0 er))])%list, (Some TCollector), A, "", false, true, [].
+      * exists (S ++ [(Some TCollector, ACollector CAnd (String e0 er))])%list, None, A, "", false, true, [].
         repeat split; try discriminate. apply app_nil_r.
   - (* slice *)
     cbn [wf_seg] in Hwf. apply andb_true_iff in Hwf. destruct Hwf as [H1 H2]. cbn [body kseg].
